@@ -23,7 +23,9 @@ fn leaf_spans(node: &SyntaxNode, off: &mut usize, out: &mut Vec<(usize, usize, K
 
 const WS_PLAIN: &[&str] = &[" ", "  ", "\n", "\n\n", "\n  ", " \n", "\n\n\n", "\n    ", "", "\t", " \n \n ", "\n\n\n\n"];
 const WS_EXOTIC: &[&str] = &["\r\n", "\r", "\u{2028}", "\u{0085}", "\x0b", "\x0c", "\u{2029}", "\r\n\r\n"];
+const SPICE: &[&str] = &["\u{a0}", "\u{3000}", "\u{2003}", "\t", "\u{2028}", "\x0c", "\u{85}", "\x0b", "é", "中", "\u{200b}", "  "];
 const COMMENTS: &[&str] = &[
+    "/* a\n\u{3000}b */", "/* a\n\u{a0} b\n\tc */", "/* a\n  \u{2003}b\n   c */", "/*\u{3000}é\n\t* b\n */",
     "/* c */", "// c\n", "/* a\n   b */", "/* a\n * b\n */", " /* c */ ", " // c\n", "\n// c\n", "/**/", "//\n",
     "/* @typstyle off */", "// @typstyle off\n", "/* x */ /* y */", "// a\n// b\n", "\n/* c */\n", "/* a\n\n  b */",
 ];
@@ -54,6 +56,19 @@ pub fn perturb(src: &str, rng: &mut Rng, opts: Opts) -> Option<String> {
         let i = rng.below(spans.len());
         let (s, e, k) = spans[i];
         let choice = rng.below(10);
+        if opts.exotic
+            && matches!(k, K::BlockComment | K::LineComment | K::Str | K::Text | K::Raw | K::RawTrimmed | K::MathText)
+            && rng.chance(1, 2)
+        {
+            // spice: replace a blank inside the token by an unusual character, or insert one
+            let text = &src[s..e];
+            let blanks: Vec<usize> = text.char_indices().filter(|(_, c)| *c == ' ').map(|(i, _)| i).collect();
+            if !blanks.is_empty() {
+                let b = blanks[rng.below(blanks.len())];
+                edits.push((s + b, s + b + 1, rng.pick(SPICE).to_string()));
+                continue;
+            }
+        }
         if k == K::Space && choice < 5 {
             let pool = if opts.exotic && rng.chance(1, 4) { WS_EXOTIC } else { WS_PLAIN };
             let mut rep = rng.pick(pool).to_string();
